@@ -44,6 +44,8 @@ func tsValues() []*V {
 		S("2009-12-31T23:59:59.999999999Z"), S("2010-01-01T00:00:00Z"), S("2010-01-01T00:00:00.000000001Z"),
 		S("2010-01-01T03:00:00+03:00"), S("2200-01-01T00:00:00Z"), S("1262304000"), S("1262304000.5"),
 		S("1262303999"), S("7258118400"), S("2010-01-01"), S("qwe"), N("123"),
+		// float unix times one nanosecond around the rules' values (the fraction has to be read digit by digit)
+		S("1262304000.000000001"), S("1262303999.999999999"),
 	}
 }
 
